@@ -9,6 +9,8 @@ package xsync
 // ---------------------------------------------------------------------------------------------
 //@ define mapInv(m) = inv(m)
 //@ define valOr0(o) = ite(present(o), val(o), nil)
+//@ define cardPut(M, k) = card(M) + ite(present(M[k]), 0, 1)
+//@ define cardDel(M, k) = card(M) - ite(present(M[k]), 1, 0)
 
 //@ -- twin-begin Map
 //@ func (*Map).Load
@@ -23,6 +25,7 @@ package xsync
 //@   requires m != nil && mapInv(m)
 //@   modifies view(m)
 //@   ensures {C11,C03} post.state: view(m) == put(old(view(m)), key, value)
+//@   ensures {C08} post.card: card(view(m)) == cardPut(old(view(m)), key)
 //@   ensures mapInv(m)
 
 //@ func (*Map).Compute
@@ -33,6 +36,7 @@ package xsync
 //@   modifies view(m)
 //@   ensures {C11,C03} post.del: del ==> view(m) == remove(old(view(m)), key) && actual == valOr0(o) && !ok
 //@   ensures {C11,C03} post.upd: !del ==> view(m) == put(old(view(m)), key, nv) && actual == nv && ok
+//@   ensures {C08} post.card: card(view(m)) == ite(del, cardDel(old(view(m)), key), cardPut(old(view(m)), key))
 //@   ensures mapInv(m)
 
 //@ func (*Map).LoadAndDelete
@@ -41,6 +45,7 @@ package xsync
 //@   let o = old(view(m))[key]
 //@   modifies view(m)
 //@   ensures {C11,C03} post.state: view(m) == remove(old(view(m)), key)
+//@   ensures {C08} post.card: card(view(m)) == cardDel(old(view(m)), key)
 //@   ensures {C11,C03} post.value: value == valOr0(o) && loaded == present(o)
 //@   ensures mapInv(m)
 
@@ -49,19 +54,27 @@ package xsync
 //@   requires m != nil && mapInv(m)
 //@   modifies view(m)
 //@   ensures {C11,C03} post.state: view(m) == remove(old(view(m)), key)
+//@   ensures {C08} post.card: card(view(m)) == cardDel(old(view(m)), key)
 //@   ensures mapInv(m)
+
+//@ func (*Map).Range
+//@   trusted interface contract (builtin-map semantics); discharged by the table-layer proofs when those are enabled
+//@   requires m != nil && mapInv(m)
+//@   reenters mapInv(m)
+//@   iterates f over view(m)
 
 //@ func (*Map).Clear
 //@   trusted interface contract (builtin-map semantics); discharged by the table-layer proofs when those are enabled
 //@   requires m != nil && mapInv(m)
 //@   modifies view(m)
 //@   ensures {C11,C03} post.state: view(m) == emptymap(old(view(m)))
+//@   ensures {C08} post.card: card(view(m)) == 0
 //@   ensures mapInv(m)
 
 //@ func (*Map).Size
 //@   trusted interface contract (builtin-map semantics); discharged by the table-layer proofs when those are enabled
 //@   requires m != nil && mapInv(m)
-//@   ensures {C08} post.value: bv2int(res0) == card(view(m))
+//@   ensures {C08} post.value: res0 == card(view(m))
 //@ -- twin-end Map
 
 //@ -- twin-begin MapOf
@@ -77,6 +90,7 @@ package xsync
 //@   requires m != nil && mapInv(m)
 //@   modifies view(m)
 //@   ensures {C11,C03} post.state: view(m) == put(old(view(m)), key, value)
+//@   ensures {C08} post.card: card(view(m)) == cardPut(old(view(m)), key)
 //@   ensures mapInv(m)
 
 //@ func (*MapOf[K, V]).Compute
@@ -87,6 +101,7 @@ package xsync
 //@   modifies view(m)
 //@   ensures {C11,C03} post.del: del ==> view(m) == remove(old(view(m)), key) && actual == valOr0(o) && !ok
 //@   ensures {C11,C03} post.upd: !del ==> view(m) == put(old(view(m)), key, nv) && actual == nv && ok
+//@   ensures {C08} post.card: card(view(m)) == ite(del, cardDel(old(view(m)), key), cardPut(old(view(m)), key))
 //@   ensures mapInv(m)
 
 //@ func (*MapOf[K, V]).LoadAndDelete
@@ -95,6 +110,7 @@ package xsync
 //@   let o = old(view(m))[key]
 //@   modifies view(m)
 //@   ensures {C11,C03} post.state: view(m) == remove(old(view(m)), key)
+//@   ensures {C08} post.card: card(view(m)) == cardDel(old(view(m)), key)
 //@   ensures {C11,C03} post.value: value == valOr0(o) && loaded == present(o)
 //@   ensures mapInv(m)
 
@@ -103,17 +119,25 @@ package xsync
 //@   requires m != nil && mapInv(m)
 //@   modifies view(m)
 //@   ensures {C11,C03} post.state: view(m) == remove(old(view(m)), key)
+//@   ensures {C08} post.card: card(view(m)) == cardDel(old(view(m)), key)
 //@   ensures mapInv(m)
+
+//@ func (*MapOf[K, V]).Range
+//@   trusted interface contract (builtin-map semantics); discharged by the table-layer proofs when those are enabled
+//@   requires m != nil && mapInv(m)
+//@   reenters mapInv(m)
+//@   iterates f over view(m)
 
 //@ func (*MapOf[K, V]).Clear
 //@   trusted interface contract (builtin-map semantics); discharged by the table-layer proofs when those are enabled
 //@   requires m != nil && mapInv(m)
 //@   modifies view(m)
 //@   ensures {C11,C03} post.state: view(m) == emptymap(old(view(m)))
+//@   ensures {C08} post.card: card(view(m)) == 0
 //@   ensures mapInv(m)
 
 //@ func (*MapOf[K, V]).Size
 //@   trusted interface contract (builtin-map semantics); discharged by the table-layer proofs when those are enabled
 //@   requires m != nil && mapInv(m)
-//@   ensures {C08} post.value: bv2int(res0) == card(view(m))
+//@   ensures {C08} post.value: res0 == card(view(m))
 //@ -- twin-end MapOf
